@@ -433,6 +433,7 @@ func (h *hstream) run(shape int) error {
 	if vs, vst, ok := grpctunnel.VerifServerFromContext(h.ctx); ok {
 		h.ts.W.noteServer(h.ts.Name, vs)
 		h.vstream = vst
+		h.ts.W.noteStream(h.rpc, vst)
 	}
 	done := make(chan error, 1)
 	if len(h.plan.HandlerSend) > 0 {
